@@ -36,7 +36,7 @@ ASSUMPTIONS = [
     "explicit eigenvectors are exact (bi)orthonormal eigenvectors of h_0 up to rounding; implicit energies are >= 1 away from explicit ones",
     "KPM tolerance: residual <= 50 * a * atol * (1 + |Y|) with a the half bandwidth, or a convergence RuntimeWarning",
 ]
-REQUIRED_CLASSES = {"all": ["mode=diagonal", "mode=direct", "mode=greens", "mode=kpm", "mode=operator", "operator-diagonal-index", "integer-energies", "rhs=sparse", "rhs=sympy", "orientation=left",
+REQUIRED_CLASSES = {"all": ["mode=diagonal", "mode=direct", "mode=greens", "mode=kpm", "mode=operator", "operator-diagonal-index", "integer-energies", "dtype=int64", "rhs=sparse", "rhs=sympy", "orientation=left",
                             "orientation=right", "biorthogonal", "degenerate-explicit", "aux-vectors", "dtype=float32"]}
 
 
@@ -109,7 +109,7 @@ def _h0_case(draw, mode):
         "reverse_explicit": draw(st.booleans()),
     }
     if mode == "greens":
-        case["dtype"] = draw(st.sampled_from(["float64", "complex128", "float32", "complex64"]))
+        case["dtype"] = draw(st.sampled_from(["float64", "complex128", "float32", "complex64", "int64"]))
         case["at_eigenvalue"] = draw(st.booleans())
         case["shift"] = draw(st.sampled_from([0.5, -0.5, 0.25]))
     if mode == "kpm":
@@ -400,8 +400,10 @@ def _check_greens(case, out, wlist):
 
     from pymablock.linalg import direct_greens_function
 
-    H0, R, L, E = build_h0(dict(case, nh=False))
     n = case["n"]
+    if case["dtype"] == "int64":
+        return _check_greens_int(case, out)
+    H0, R, L, E = build_h0(dict(case, nh=False))
     dtype = np.dtype(case["dtype"])
     out.labels.append("dtype=" + case["dtype"])
     if dtype.kind == "f" and np.iscomplexobj(H0):
@@ -443,6 +445,47 @@ def _check_greens(case, out, wlist):
         out.fail("range", f"P x != x by {np.abs(Pk @ x - x).max():.3g} (dtype {case['dtype']})")
         return
     out.nontrivial = bool(case["at_eigenvalue"] or dtype != np.float64)
+
+
+def _check_greens_int(case, out):
+    """Integer-dtype sparse H (e.g. a hopping matrix with integer on-site energies), non-integer energies."""
+    from scipy import sparse
+
+    from pymablock.linalg import direct_greens_function
+
+    n = case["n"]
+    out.labels.append("dtype=int64")
+    G = np.array([[e[0] for e in row] for row in case["G"]], dtype=np.int64)
+    H = G + G.T + np.diag(np.arange(n, dtype=np.int64) * 3)
+    w, vecs = np.linalg.eigh(H.astype(float))
+    if case["at_eigenvalue"]:
+        k = min(range(n), key=lambda q: -min(abs(w[q] - w[r]) for r in range(n) if r != q))  # best separated level
+        if min(abs(w[k] - w[r]) for r in range(n) if r != k) < 0.3:
+            out.labels.append("skipped:levels-too-close")
+            return
+        energy, K = float(w[k]), vecs[:, [k]]
+    else:
+        energy = float(w[0]) + case["shift"] + 0.37
+        while np.min(np.abs(w - energy)) < 0.2:
+            energy += 0.31
+        K = None
+    v = np.array([complex(e[0], e[1]) for e in case["Y"][0][:n]]).real.copy()
+    try:
+        gf = direct_greens_function(sparse.csr_array(H), energy, kernel_vectors=K)
+        x = np.asarray(gf(v.copy()))
+    except Exception as exc:  # noqa: BLE001
+        out.fail("exception", f"direct_greens_function(int64 H, E={energy:.4f}) raised {type(exc).__name__}: {str(exc)[:200]}")
+        return
+    Pk = np.eye(n) if K is None else np.eye(n) - K @ K.T
+    res = (energy * np.eye(n) - H) @ x - Pk @ v
+    scale = max(1.0, float(np.abs(v).max()), float(np.abs(x).max()) * float(np.abs(H).max()))
+    if not np.all(np.isfinite(x)) or float(np.abs(res).max()) > 1e-8 * scale:
+        out.fail("residual", f"(E - H) x - P v = {np.abs(res).max():.3g} for an integer-dtype H and E = {energy:.4f} (scale {scale:.3g})")
+        return
+    if float(np.abs(Pk @ x - x).max()) > 1e-8 * scale:
+        out.fail("range", f"P x != x by {np.abs(Pk @ x - x).max():.3g} (integer-dtype H)")
+        return
+    out.nontrivial = True
 
 
 def _real_version(case):
